@@ -1,7 +1,7 @@
 #!/bin/bash
 # Runs every seeded change against the check of its property (quick tier; meta.json "checked_by" names further checks to run) and
 # writes seeded/MATRIX.md.  Each change is applied to a scratch worktree of /repo HEAD (tools/try_mutant_par.sh); /repo is not touched.
-# MATRIX_JOBS=n runs n changes at a time.
+# MATRIX_JOBS=n runs n changes at a time.  MATRIX_GLOB='*-l' re-runs only the matching changes and keeps the other rows of MATRIX.md.
 cd "$(dirname "$0")/.."
 out=seeded/MATRIX.md
 rows=$(mktemp -d /tmp/matrix-rows-XXXXXX)
@@ -24,7 +24,10 @@ one() {
   echo "$m $res"
 }
 export -f one
-ls -d seeded/*/ | xargs -P ${MATRIX_JOBS:-1} -I{} bash -c 'one {} '$rows
+ls -d seeded/${MATRIX_GLOB:-*}/ | xargs -P ${MATRIX_JOBS:-1} -I{} bash -c 'one {} '$rows
+if [ -n "$MATRIX_GLOB" ] && [ -f $out ]; then   # keep the rows of the changes that were not re-run
+  grep '^| C' $out | while IFS= read -r line; do m=$(echo "$line" | cut -d'|' -f2 | tr -d ' '); [ -f $rows/$m.row ] || echo "$line" > $rows/$m.row; done
+fi
 echo "| seeded change | property | what it needs to manifest | check result (quick tier) |" > $out
 echo "|---|---|---|---|" >> $out
 cat $(ls $rows/*.row | sort) >> $out
